@@ -1,5 +1,6 @@
 import KoordVerif.Proofs.C15ExtMin
 import KoordVerif.Proofs.C15ExtNs
+import KoordVerif.Proofs.C15ExtUp
 /-
 C15 — property theorems (DESIGN.md §4 C15, Appendix A.7).
 
@@ -101,6 +102,11 @@ theorem no_cycle (s : Topo) (hF : Forest s) (q : QI) (hq : q ∈ s.info) : ¬ An
   have := anc_rank_le hr ha
   have := hr q hq
   omega
+
+/-- following parent links from any recorded quota reaches the root (`upN n` = n steps along the links). -/
+theorem reaches_root (s : Topo) (hF : Forest s) (q : QI) (hq : q ∈ s.info) : ∃ n, upN s.info n q.name = 0 := by
+  obtain ⟨r, hr⟩ := hF.ranked
+  exact reaches_root_aux hF r hr (r q.name) q.name (Nat.le_refl _) (Or.inr ⟨q, hq, rfl⟩)
 
 /-- a re-parenting request that would close a cycle (new parent = the quota itself or one of its
     descendants) is never accepted as a change. -/
